@@ -751,9 +751,9 @@ func init() {
 						}
 					}
 				}
-				cl := g.do("chainlen " + o)
-				if n, err := strconv.Atoi(cl); err == nil && n > len(ref[canon(o)]) {
-					viol = append(viol, fmt.Sprintf("owner %s stores %d links for %d live keys", o, n, len(ref[canon(o)])))
+				// (no renderer runs in this stream, so the live keys are all there is)
+				if cl := g.do(fmt.Sprintf("chainlen %s %d", o, len(ref[canon(o)]))); cl == "gt" {
+					viol = append(viol, fmt.Sprintf("owner %s stores more links than its %d live keys", o, len(ref[canon(o)])))
 				}
 			}
 			if len(viol) > 6 {
